@@ -665,12 +665,20 @@ def np_unravel_index(eng, args, kwargs):
 _prev_cast = narr.cast
 
 
+<<<<<<< HEAD
 def cast(eng, x, kind, *more, **kw):
+=======
+def cast(eng, x, kind, *more, **kw):  # narr.cast has grown optional dtype arguments: passed through
+>>>>>>> w4-g-c16
     # +-inf has no real value: it is kept as the float itself (only np.argmin above understands it; any arithmetic on
     # it raises inside the engine, i.e. a machinery error, never a wrong proof)
     if _is_inf(x) and kind == "real":
         return x
+<<<<<<< HEAD
     return _prev_cast(eng, x, kind, *more, **kw)  # narr.cast also takes the target / source dtypes (dtype-faithful casts)
+=======
+    return _prev_cast(eng, x, kind, *more, **kw)
+>>>>>>> w4-g-c16
 
 
 # ----------------------------------------------- obj.__getattribute__(name)
@@ -689,6 +697,139 @@ def _patch_getattr():
 
     getattr_._c16 = True
     Interp.getattr_ = getattr_
+
+
+# ------------------------------------- hand-written interpolation: searchsorted / clip / gather / elementwise division
+_prev_searchsorted = _prev(np.searchsorted)
+
+
+def _sorted_obligation(eng, az):
+    if len(az) > 1 and not eng.spec_mode:
+        g = z3.simplify(z3.And(*[az[j] <= az[j + 1] for j in range(len(az) - 1)]))
+        if not z3.is_true(g):
+            eng.prove(eng.site("searchsorted-on-an-ascending-array"), g, "safety")
+
+
+def np_searchsorted(eng, args, kwargs):
+    """np.searchsorted(a, v, side) for a 1-D `a` of CONCRETE length (symbolic contents) and needles v of any supported form (scalar,
+    concrete-shape array, 1-D array of symbolic length): the insertion point of every needle.  numpy requires `a` ascending (an
+    obligation of the call); for an ascending `a` the left insertion point is #{j: a[j] < v} and the right one #{j: a[j] <= v}.
+    Every other operand form goes to the searchsorted models of pyvc/ext_tables.py / pyvc/ext_C05.py (symbolic-length `a`)."""
+    b = dict(zip(["a", "v", "side", "sorter"], args))
+    b.update(kwargs)
+    a, v, side = b.get("a"), b.get("v"), b.get("side", "left")
+    if isinstance(a, PList) and a.items is not None:
+        a = narr._as_narr(eng, a)
+    if not (isinstance(a, NArr) and a.ndim == 1 and a.kind in ("int", "real") and b.get("sorter") is None and side in ("left", "right")
+            and set(b) <= {"a", "v", "side", "sorter"}):
+        if _prev_searchsorted is not None:
+            return _prev_searchsorted(eng, args, kwargs)
+        from . import ext_tables
+
+        return ext_tables._np_searchsorted(eng, args, kwargs)
+    used(eng, "np.searchsorted(a, v, side) on an ascending 1-D array of concrete length: left = #{j: a[j] < v}, right = #{j: a[j] <= v}, "
+              "one insertion point per needle (ascending order of `a` is an obligation of the call)")
+    az = [to_z3(x, "real") for x in a.items]
+    _sorted_obligation(eng, az)
+    below = (lambda x, t: x < t) if side == "left" else (lambda x, t: x <= t)
+
+    def count(t):
+        # ascending a: the insertion point is the first j with not below(a[j], t), i.e. the number of entries below
+        out = z3.IntVal(len(az))
+        for j in range(len(az) - 1, -1, -1):
+            out = z3.If(below(az[j], t), out, z3.IntVal(j))
+        return out
+
+    if isinstance(v, SArr) and v.kind in ("int", "real"):
+        out = SArr(lam(lambda i: count(to_z3(v.get(i), "real")), "int"), v.n, "int", name="searchsorted")
+        out.dtype = np.dtype("int64")
+        return out
+    if isinstance(v, (PList, list, tuple)):
+        v = narr._as_narr(eng, v)
+    if isinstance(v, NArr) and v.kind in ("int", "real"):
+        return NArr(v.shape, [eng.snum(z3.simplify(count(to_z3(x, "real"))), "int") for x in v.items], "int", np.dtype("int64"))
+    if kind_of(v) in ("int", "real"):
+        return eng.snum(z3.simplify(count(to_z3(v, "real"))), "int")
+    raise Unsupported("np.searchsorted needle")
+
+
+_prev_clip = _prev(np.clip)
+
+
+def np_clip(eng, args, kwargs):
+    """np.clip(a, lo, hi) of a 1-D array of symbolic length with scalar bounds: min(max(a, lo), hi) entry by entry, kind kept
+    (an integer array clipped to integer bounds stays an index array).  Other forms: the stock model."""
+    b = dict(zip(["a", "a_min", "a_max"], args))
+    b.update({("a_min" if k == "min" else "a_max" if k == "max" else k): x for k, x in kwargs.items()})
+    v, lo, hi = b.get("a"), b.get("a_min"), b.get("a_max")
+    if not (isinstance(v, SArr) and v.kind in ("int", "real") and set(b) <= {"a", "a_min", "a_max"}
+            and all(x is None or kind_of(x) in ("int", "real") for x in (lo, hi)) and (lo is not None or hi is not None)):
+        return _prev_clip(eng, args, kwargs)
+    used(eng, "np.clip(a, lo, hi) = minimum(maximum(a, lo), hi) entry by entry")
+    k = "real" if "real" in [v.kind] + [kind_of(x) for x in (lo, hi) if x is not None] else "int"
+
+    def f(i):
+        z = to_z3(v.get(i), k)
+        if lo is not None:
+            l = to_z3(lo, k)
+            z = z3.If(z < l, l, z)
+        if hi is not None:
+            h = to_z3(hi, k)
+            z = z3.If(z > h, h, z)  # numpy: minimum(maximum(a, lo), hi): hi wins when lo > hi
+        return z
+
+    out = SArr(lam(f, k), v.n, k, name="clip")
+    if k == "int":
+        out.dtype = getattr(v, "dtype", None) or np.dtype("int64")
+    return out
+
+
+_prev_narr_getitem = narr.getitem
+
+
+def narr_getitem(eng, a, idx):
+    """a[idx] of a concrete-shape 1-D / 2-D array (symbolic contents) through an INTEGER index array of SYMBOLIC length: a gather,
+    result[i] = a[idx[i]] (row idx[i] for a 2-D array); every index in [-len, len) is an obligation (numpy: IndexError otherwise)."""
+    if not (isinstance(a, NArr) and type(idx) is SArr and idx.kind == "int" and a.ndim in (1, 2) and a.shape[0] >= 1 and a.kind in ("int", "real", "bool")):
+        return _prev_narr_getitem(eng, a, idx)
+    used(eng, "fancy-index-gather-is-fresh")
+    n0 = a.shape[0]
+    if not eng.spec_mode:
+        j = z3.Int(fresh_name("gi"))
+        g = z3.ForAll([j], z3.Implies(z3.And(j >= 0, j < idx.nz()), z3.And(idx.get(j).z >= -n0, idx.get(j).z < n0)))
+        eng.prove(eng.site("gather-in-bounds"), g, "safety")
+    items = [to_z3(x, a.kind) for x in a.items]
+    ncol = 1 if a.ndim == 1 else a.shape[1]
+
+    def cell(c):
+        def f(i):
+            iz = idx.get(i).z
+            iz = z3.If(iz < 0, iz + n0, iz)
+            z = items[(n0 - 1) * ncol + c]
+            for r in range(n0 - 2, -1, -1):
+                z = z3.If(iz == r, items[r * ncol + c], z)
+            return z
+
+        return lam(f, a.kind)
+
+    if a.ndim == 1:
+        return SArr(cell(0), idx.n, a.kind, name="gather")
+    return S2Arr([cell(c) for c in range(ncol)], idx.n, a.kind)
+
+
+_prev_array_binop = npmodels.array_binop
+
+
+def array_binop(eng, op, a, b):
+    """elementwise `/` `//` `%` whose DIVISOR is a 1-D array of symbolic length: over the reals x/0 is not a number (numpy gives
+    inf / nan and a RuntimeWarning), so every divisor entry != 0 is the same `div-nonzero` obligation scalar division carries."""
+    if isinstance(op, (ast.Div, ast.FloorDiv, ast.Mod)) and type(b) is SArr and b.kind in ("int", "real") and not isinstance(a, NArr) and not eng.spec_mode:
+        q = z3.Int(fresh_name("dj"))
+        g = z3.simplify(z3.ForAll([q], z3.Implies(z3.And(q >= 0, q < b.nz()), b.get(q).z != 0)))
+        if not z3.is_true(g):
+            eng.prove(eng.site("div-nonzero"), g, "safety")
+    return _prev_array_binop(eng, op, a, b)
+
 
 
 def install():
@@ -725,6 +866,10 @@ def install():
     #  - slice store into a symbolic-length array (npmodels.setitem is looked up through the module at call time)
     #  - storing +-inf into a concrete-shape array (narr.cast)
     #  - obj.__getattribute__(name) on instances of repository classes (Interp.getattr_)
+    E[np.searchsorted] = np_searchsorted
+    E[np.clip] = np_clip
+    narr.getitem = narr_getitem
+    npmodels.array_binop = array_binop
     npmodels.setitem = setitem
     narr.cast = cast
     _patch_getattr()
